@@ -533,7 +533,9 @@ Type help or ? to list commands.
         tree.bind(self.eval_context)
         try:
             value = tree.eval()
-        except EvalError as e:
+        except (EvalError, InternalError) as e:
+            # InternalError: an expression that cannot be evaluated by
+            # the debugger, like a call to a built-in function
             print('Eval error:', e)
             return
         except OverflowError:
